@@ -954,7 +954,8 @@ pub fn parse(lex_tokens: &Vec<LexerToken>) -> Result<ParseResult, CompilerError>
                 Some(node) => {
                     let node: &ParseNode = node;
                     trace!("Checking if last left ({:?}) needs to be changed due to end of side effect.", last_left);
-                    if node.get_definition() == Definition::SideEffect && last_left != under_group && node.parent.is_some() {
+                    // (a block that took over the operand before it as its left child is itself what comes last)
+                    if node.get_definition() == Definition::SideEffect && last_left != under_group && node.parent.is_some() && node.left.is_none() {
                         trace!("Changing last left to side effect's parent {:?}", node.parent);
                         last_left = node.parent;
 
